@@ -246,9 +246,11 @@ def _get_matching_dir_entries(parent_dir, auth_set, st_mode_test=None, ext=""):
     if auth_set.auth_type == AuthSet.WHITE:
         for value in auth_set.values:
             filename = value + ext
-            if os.path.basename(filename) != filename or "\0" in filename:
+            if os.path.basename(filename) != filename or "\0" in filename \
+                    or filename in (".", ".."):
                 # Not the name of an entry of this directory (and as a path,
-                # it might name one of them a second time).
+                # it might name one of them a second time, or -- ".." -- a
+                # directory outside the store).
                 continue
             try:
                 if st_mode_test:
